@@ -101,7 +101,7 @@ def main():
         print("demo without mutant:", "passes (expected)" if rc == 0 else "FAILS (unexpected)")
         meta["confirmed"] = bool(ok_pinned and demo_fails and rc == 0)
     # ---- store ----
-    dst = os.path.join(ROOT, "seeded", name)
+    dst = os.path.join(os.environ.get("SEED_STORE", os.path.join(ROOT, "seeded")), name)
     os.makedirs(dst, exist_ok=True)
     shutil.copy(diff, os.path.join(dst, "patch.diff"))
     shutil.copy(demo, os.path.join(dst, "demo.rs"))
